@@ -328,7 +328,67 @@ def check_other_strategies(ctx):
         ok = okv and _is_nfold_grid(rx, st)
     ctx.check(ok, 'C05.5', 'CubicSplineRFA: y = CubicSpline(self.x, self.y) evaluated (point by point or at once) on the returned n-fold grid, which contains every original abscissa', detail,
               st.rfa.loc(), st.rfa.qualname, 'cubic')
+    # SciPy builds a periodic spline only for a series whose first and last value are identical (it raises ValueError otherwise): the strategy
+    # is defined for every series only if periodic boundary conditions are requested under exactly that test
+    for t in apps if ok else []:
+        f = t.args[0]
+        if not (isinstance(f, Term) and f.head == 'lib:scipy.interpolate.CubicSpline'):
+            continue
+        bc = targ(f, 'bc_type', 3)
+        if bc is None:
+            continue
+        conds = _when_equal(bc, 'periodic')
+        inst = 'CubicSplineRFA: periodic boundary conditions are requested only for a series whose end values are identical (SciPy refuses any other)'
+        if conds is None:
+            ctx.unknown('C05.5', inst, f"bc_type = {show(bc, 160)}: not a selection between literal options", st.rfa.loc(), st.rfa.qualname, 'cubic-bc')
+            continue
+        y0 = unwrap(st.Y0)
+        bad = []
+        for c in conds:
+            parts = list(c.args) if isinstance(c, P) and c.op == 'and' else [c]
+            exact = any(isinstance(q, P) and q.op == '==' and len(q.args) == 2 and all(isinstance(a_, Num) and a_.length is None for a_ in q.args)
+                        and _ends_of(q.args, y0) for q in parts)
+            if not exact:
+                bad.append(str(c)[:160])
+        ctx.check(not bad, 'C05.5', inst, f"periodic when {bad[:2]}", st.rfa.loc(), st.rfa.qualname, 'cubic-bc')
     ctx.trust('scipy.interpolate.CubicSpline interpolates its knots')
+
+
+def _when_equal(v, lit):
+    """conditions under which a selection between literal values yields `lit`; None when the value is not such a selection"""
+    from ..values import Gam, Const as _C, TRUE
+    if isinstance(v, _C):
+        return [TRUE] if v.v == lit else []
+    if isinstance(v, Gam):
+        a, b = _when_equal(v.a, lit), _when_equal(v.b, lit)
+        if a is None or b is None:
+            return None
+        def conj(p, q):
+            return p if (isinstance(q, _C) and q.v is True) else P('and', p, q)
+        from ..values import p_not
+        return [conj(v.pred, q) for q in a] + [conj(p_not(v.pred), q) for q in b]
+    return None
+
+
+def _ends_of(args, y0) -> bool:
+    """the two compared values are the first and the last element of the series"""
+    idx = []
+    for a in args:
+        ats = list(a.r.atoms())
+        if len(ats) != 1 or not (a.r == Rat.atom(ats[0])) or sym.ATOMS.head(ats[0]) != 'el':
+            return False
+        ref, ix = sym.ATOMS.args(ats[0])
+        t_ = ref.term if hasattr(ref, 'term') and ref.term is not None else ref
+        if not (veq(unwrap(t_), y0) if isinstance(t_, Val) else False):
+            yn = y0 if isinstance(y0, Num) else None
+            if yn is None or not any(sym.ATOMS.head(b_) == 'el' and sym.ATOMS.args(b_)[0] is ref for b_ in sym.all_atoms(yn.r)):
+                return False
+        idx.append(ix)
+    ln = y0.length if isinstance(y0, Num) else None
+    if ln is None:
+        return False
+    want = {sym.show(C(0)), sym.show(ln - C(1))}
+    return {sym.show(i_) for i_ in idx} == want
 
 
 def run(ctx):
